@@ -948,7 +948,7 @@ fn builders(thorough: bool) -> Vec<Builder> {
         });
     }
 
-    // ---- FastICA: tolerance and the G function (the alpha of Logcosh is documented as [1, 2] and tested by fit only)
+    // ---- FastICA: tolerance and the G function (the alpha of Logcosh is documented as [1, 2]; guarded since the repair of F-C04-1)
     {
         let dd = d.clone();
         let lc = |a: f64| PV::Ctor("Logcosh", vec![PV::F(a)]);
